@@ -2,7 +2,7 @@
 import os
 from .core import BIN, HARNESS, LEAN, sh
 
-T1 = [("status", "TrStatus"), ("grpcerr", "TrGrpcerr")]
+T1 = [("status", "TrStatus"), ("grpcerr", "TrGrpcerr"), ("sampler", "TrSampler")]
 T2 = []
 
 
